@@ -319,7 +319,7 @@ def serialize_to_xml(elements: Iterable[Any],
         else:
             if cks and cks[0].startswith(b'<?'):
                 cks[0] = cks[0].replace(b'\'', b'"')
-            chunks.append(b'\n'.join(cks).decode('utf-8').rstrip(elem.tail))
+            chunks.append(b''.join(cks).decode('utf-8').rstrip(elem.tail))
 
     if not character_map:
         return (item_separator or '').join(chunks)
